@@ -23,6 +23,7 @@ type c06Case struct {
 	Input  []byte `json:"input"`
 	Stride int    `json:"stride,omitempty"`
 	Sub    bool   `json:"subprocess,omitempty"`
+	Gen    string `json:"generated,omitempty"` // subprocess input given as "unit-hex:count:tail-hex" (too long for an argument)
 }
 
 const c06MaxValuesPerStream = 64
@@ -307,6 +308,27 @@ func c06Run(c *fw.Ctx) {
 			c.Violation("C06|"+c06Lead(in)+"|"+verdict, fmt.Sprintf("%s: %s input=%s (sacrificial subprocess, RLIMIT_AS=%d GiB)", verdict, detail, trunc(in, 60), c06LimitGiB), c06Case{Input: in, Sub: true})
 		}
 	}
+	// (d) nesting depth: nothing but array headers, up to 8 million levels (32 MB)
+	for _, unit := range []string{"*1\r\n", "*2\r\n:1\r\n", "*2\r\n$1\r\na\r\n"} {
+		for _, n := range []int{100, 128, 129, 1000, 100000, 2000000, 8000000} {
+			for _, tail := range []string{":1\r\n", "", "*0\r\n"} {
+				if !c.Mine() {
+					continue
+				}
+				if c.Quick() && n > 2000000 {
+					continue
+				}
+				spec := fmt.Sprintf("%s:%d:%s", hex.EncodeToString([]byte(unit)), n, hex.EncodeToString([]byte(tail)))
+				c.Eval()
+				c.Nontrivial()
+				c.Count("subprocess_cases", 1)
+				verdict, detail := c06Sacrifice(self, nil, spec)
+				if verdict != "" {
+					c.Violation("C06|nesting|"+verdict, fmt.Sprintf("%s: %s input=%d x %q + %q (sacrificial subprocess, RLIMIT_AS=%d GiB)", verdict, detail, n, unit, tail, c06LimitGiB), c06Case{Gen: spec, Sub: true})
+				}
+			}
+		}
+	}
 	if len(subCases) > 0 && c.WantSample() {
 		c.Sample(map[string]string{"family": "declared sizes > 2^20 run in a sacrificial subprocess", "example": trunc(subCases[0], 50)})
 	}
@@ -316,8 +338,12 @@ const c06LimitGiB = 8
 
 // c06Sacrifice parses the input in a child process whose address space is
 // capped; the verdict is the actual fate of that process.
-func c06Sacrifice(self string, input []byte) (verdict, detail string) {
-	cmd := exec.Command(self, "aux", "c06-parse", hex.EncodeToString(input))
+func c06Sacrifice(self string, input []byte, gen ...string) (verdict, detail string) {
+	arg := hex.EncodeToString(input)
+	if len(gen) > 0 {
+		arg = "gen:" + gen[0]
+	}
+	cmd := exec.Command(self, "aux", "c06-parse", arg)
 	cmd.Env = append(os.Environ(), "GOMAXPROCS=1", "GOGC=off")
 	var out, errb bytes.Buffer
 	cmd.Stdout = &out
@@ -375,8 +401,21 @@ func c06Aux(args []string) int {
 	if len(args) < 1 {
 		return 2
 	}
-	in, err := hex.DecodeString(args[0])
-	if err != nil {
+	var in []byte
+	var err error
+	if spec, ok := strings.CutPrefix(args[0], "gen:"); ok {
+		parts := strings.Split(spec, ":")
+		if len(parts) != 3 {
+			return 2
+		}
+		unit, e1 := hex.DecodeString(parts[0])
+		n, e2 := strconv.Atoi(parts[1])
+		tail, e3 := hex.DecodeString(parts[2])
+		if e1 != nil || e2 != nil || e3 != nil {
+			return 2
+		}
+		in = append(bytes.Repeat(unit, n), tail...)
+	} else if in, err = hex.DecodeString(args[0]); err != nil {
 		return 2
 	}
 	lim := uint64(c06LimitGiB) << 30
@@ -395,6 +434,11 @@ func c06Replay(raw json.RawMessage) (string, bool, error) {
 	if err := json.Unmarshal(raw, &cs); err != nil {
 		return "", false, err
 	}
+	if cs.Sub && cs.Gen != "" {
+		self, _ := os.Executable()
+		v, d := c06Sacrifice(self, nil, cs.Gen)
+		return fmt.Sprintf("generated=%s subprocess verdict=%q %s", cs.Gen, v, d), v != "", nil
+	}
 	if cs.Sub {
 		self, _ := os.Executable()
 		v, d := c06Sacrifice(self, cs.Input)
@@ -409,7 +453,7 @@ func init() {
 	fw.Register(&fw.Prop{
 		ID:    "C06",
 		Level: "exploration",
-		Rule:  "(a) ALL byte strings of length <=6 (thorough <=8) over {* $ + - : 0 1 2 9 CR LF a}, each whole and 1-byte-at-a-time; (b) around 18 valid base streams: every truncation, every single-byte deletion, every single-byte substitution from the alphabet, every digit run replaced by each of 15 boundary numbers (thorough: splices of two bases); (c) declared sizes > 2^20 parsed in a sacrificial subprocess with RLIMIT_AS=8GiB whose actual fate (return, panic, fatal out-of-memory) is the verdict. Non-trivial = the string starts a length-prefixed frame (family a) or is a structured edit (b, c).",
+		Rule:  "(a) ALL byte strings of length <=6 (thorough <=8) over {* $ + - : 0 1 2 9 CR LF a}, each whole and 1-byte-at-a-time; (b) around 18 valid base streams: every truncation, every single-byte deletion, every single-byte substitution from the alphabet, every digit run replaced by each of 15 boundary numbers (thorough: splices of two bases); (c) declared sizes > 2^20 parsed in a sacrificial subprocess with RLIMIT_AS=8GiB whose actual fate (return, panic, fatal out-of-memory, fatal stack overflow) is the verdict; (d) nesting: 100 .. 2*10^6 (thorough 8*10^6) repetitions of an array header (alone, or behind a first element) closed, cut off, or ended by an empty array, in the same kind of subprocess. Non-trivial = the string starts a length-prefixed frame (family a) or is a structured edit (b, c).",
 		Assumptions: []string{
 			"an address-space cap of 8 GiB stands for 'finite memory'; a fatal out-of-memory abort of the child counts as the process aborting",
 			"all byte strings up to 1 MiB and coverage-guided fuzzing are not claimed",
